@@ -8,6 +8,7 @@ import sys
 import time
 
 import libcheck
+import lockcheck
 import vbuild
 import vlib
 from libcheck import Workload
@@ -48,7 +49,7 @@ def measure_traces(shards):
             sig = tuple(x if isinstance(x, (int, str, bool, type(None))) else json.dumps(x, sort_keys=True)[:80] for x in sig)
             if f and f.get("fired"):
                 faulted += 1
-                fault_sites.add((schema, r.get("op"), f.get("k"), r.get("ns")))
+                fault_sites.add((schema, r.get("op"), f.get("k"), r.get("ns"), f.get("lock")))
             else:
                 distinct.add(sig)
     return {"calls": calls, "throws": throws, "faulted_attempts": faulted, "reopens": reopens, "crash_points_without_effect": crashes,
@@ -57,7 +58,7 @@ def measure_traces(shards):
 
 
 def history_check(prop, tier, seed, build_workloads, module="TraceLibrary", cfg=None, flavour="plain",
-                  assumptions=(), rule="", watchdog=10, extra_cov=None, level=None, driver="libdriver", also=()):
+                  assumptions=(), rule="", watchdog=10, extra_cov=None, level=None, driver="libdriver", also=(), post=None):
     t0 = time.time()
     wd = vlib.workdir("%s_%s" % (prop, tier))
     binary = vbuild.build_bin(driver, flavour, extra_src=["shim.cpp"])
@@ -125,6 +126,9 @@ def history_check(prop, tier, seed, build_workloads, module="TraceLibrary", cfg=
             violations.append({"reason": "finding '%s' matched by the specification is not a listed known finding of %s" % (name, prop),
                                "schema": sh["w"].schema, "offending_record": recs[note["record"]] if note["record"] < len(recs) else None,
                                "trace": sh["trace"], "record_index": note["record"]})
+    # a further step on the recorded traces (e.g. model checking the statement programs seen): may add violations
+    if post:
+        violations += post(shards, wd, mc_stats) or []
     # evidence
     states = sum(m.get("states", 0) for m in mc_stats)
     trans = sum(m.get("transitions", 0) for m in mc_stats)
@@ -613,6 +617,16 @@ def check_C14(tier, seed):
             cf = {"crash": True, "raw": True}
             ws.append(Workload(s, sc if len(sc) <= c1 else r.sample(sc, c1), libcheck.NAMES4, mode="disk", flags=cf, tag="k", origin=st["instance"]))
             ws.append(Workload(s, sc2 if len(sc2) <= c2 else r.sample(sc2, c2), ["a", "d"], mode="disk", flags=dict(cf), tag="k", origin=st2["instance"]))
+            # lock sweep: the same histories on disk; every call is first attempted while another connection takes an
+            # EXCLUSIVE / RESERVED / SHARED lock on the database files right before the call's k-th statement
+            # (TraceLibrary: a refused call is a Failed step; TraceContention: every statement result is the one SQLite's
+            # locking protocol gives, the library rolls back and is left without lock or transaction)
+            l1, l2 = (10, 6) if tier == "quick" else (250, 150)
+            lf = {"locks": True, "raw": True}
+            ws.append(Workload(s, sc if len(sc) <= l1 else r.sample(sc, l1), libcheck.NAMES4, mode="disk", flags=lf, tag="l", origin=st["instance"],
+                               also=vlib.store_also(s) + lockcheck.also()))
+            ws.append(Workload(s, sc2 if len(sc2) <= l2 else r.sample(sc2, l2), ["a", "d"], mode="disk", flags=dict(lf), tag="l", origin=st2["instance"],
+                               also=vlib.store_also(s) + lockcheck.also()))
         return ws
 
     def build_tracks(wd, mc_stats):
@@ -642,7 +656,7 @@ def check_C14(tier, seed):
 
     import trackchecks as _tc
     return history_check(
-        "C14", tier, seed, build,
+        "C14", tier, seed, build, post=lambda shards, wd, ms: lockcheck.model_check_programs(shards, wd, ms, tier),
         also=[{"driver": "trackdriver", "build": build_tracks, "module": "TraceTrackFields", "cfg": _tc.track_cfg()}],
         rule="fault sweep: every call of every replayed history is first attempted with its 1st, 2nd, ... k-th SQL "
              "statement failing (link-level shim returns SQLITE_IOERR from the first sqlite3_step of the k-th prepared "
@@ -653,7 +667,14 @@ def check_C14(tier, seed):
              "itself and dies (_exit, no destructor, no ROLLBACK) right before stepping its k-th statement, k = 1, 2, ...; the "
              "library is loaded again: while the stored tables are byte-identical the observation must be unchanged ('crash' "
              "record = Reopen), and once they differ the attempt is validated as the call itself - its effect must be the complete "
-             "effect of the call, never a part of it",
+             "effect of the call, never a part of it; "
+             "lock sweep (library on disk): every call is additionally attempted while ANOTHER CONNECTION takes an EXCLUSIVE, RESERVED "
+             "or SHARED lock on every database file right before the call's k-th statement (k = 1, 2, ...) and holds it to the end of "
+             "the call, so that SQLite itself refuses statements with SQLITE_BUSY (reads, writes, COMMIT): a refused call must be a "
+             "Failed step of Library (TraceLibrary), every statement result must be the one the locking protocol of Contention.tla "
+             "gives, the library must stop at the refusal, roll back, throw, hold no lock and have no transaction open "
+             "(TraceContention); the statement programs seen are then model-checked under ALL schedules of the other connection "
+             "(MCContention: AllOrNothing, AtRest, Usable, LockCompat, termination)",
         level="fault_enumeration",
         assumptions=["a failing statement has no effect of its own (SQLite statement atomicity), which is what the shim simulates",
                      "ROLLBACK, the recovery action itself, is never failed",
